@@ -125,7 +125,7 @@ func runRPC(env *wl.Env, i int, sp rpcSpec) {
 		vs.Go(fmt.Sprintf("canceller%d", i), func() { wl.Cancel(cancel) })
 	}
 	req := enc.Payload(tagOf(i), 0, 0, enc.MinPayload)
-	mustSucceed := sp.End != "cancel" && sp.End != "close" && (sp.Handler == "echo")
+	mustSucceed := (sp.End == "ok" || sp.End == "drain") && (sp.Handler == "echo")
 	fail := func(what string, err error) {
 		checkErr(env, i, err)
 		if mustSucceed {
@@ -200,6 +200,16 @@ func runRPC(env *wl.Env, i int, sp rpcSpec) {
 		cancel()
 	case "cancel":
 		wl.Cancel(cancel)
+	case "cancelzombie":
+		// the RPC is cancelled, but one of the application's goroutines has not noticed yet and keeps
+		// sending on the dead stream (every such send fails) while the next RPC runs
+		wl.Cancel(cancel)
+		vs.Go(fmt.Sprintf("zombie%d", i), func() {
+			for k := 0; k < 2; k++ {
+				out := enc.Payload(tagOf(i), 0, byte(8+k), enc.MinPayload)
+				_ = stream.MsgSend(&out, enc.Bytes{})
+			}
+		})
 	}
 }
 
@@ -303,6 +313,12 @@ func basePlans(tier string) []mc.Plan {
 		}
 	}
 	ps = append(ps, mc.Plan{Scen: slowMarshal(tiny), Bounds: []int{0, 1}})
+	// a goroutine that keeps sending on an RPC that has already been cancelled must not disturb the next
+	// RPC's (multi-frame) messages
+	for _, v := range []rpcSpec{{"S", "drain", "echo"}} {
+		sc := history(tiny, []rpcSpec{{"S", "cancelzombie", "echo"}, v})
+		ps = append(ps, mc.Plan{Scen: sc, Bounds: []int{0, 1}}, mc.Plan{Scen: sc.Reversed(), Bounds: []int{0, 1}})
+	}
 	// an RPC that ends by itself just as its context is cancelled must not make the connection deaf
 	// to the cancellation of a later RPC (whose stream the next call waits for)
 	for _, soft := range []bool{false, true} {
